@@ -1,5 +1,6 @@
 import GopatchModel.Spec.Sound
 import GopatchModel.Spec.Traverse
+import GopatchModel.Spec.Complete
 namespace Gopatch.C01
 open Gopatch
 
@@ -36,6 +37,29 @@ theorem matching_node_is_site (c : Change) (d d' : Data) (id : Nat) (fs : List V
     d' ∈ (sitesFields (nodeMatch c d) id 0 fs).map (·.data) := by
   rw [sites_are_matching_nodes]
   exact List.mem_filterMap.2 ⟨n, hn, hm⟩
+
+/-- **Every instance is matched** (patterns without metavariables): a piece of code that is a
+syntactic instance of the pattern is accepted by the matcher, whatever bindings it starts from.
+With `match_only_instances` this is an equivalence. -/
+theorem ground_instance_is_matched (mt : Meta) (σ : Subst) (p g : V) (hg : ground mt p = true)
+    (hi : Inst mt σ p g) (d : Data) : ∃ d', matchV mt p g d = some d' :=
+  matchV_complete mt σ p g hg hi d
+
+theorem ground_match_iff_instance (mt : Meta) (p g : V) (hg : ground mt p = true) (d : Data) :
+    (∃ d', matchV mt p g d = some d') ↔ ∃ σ, Inst mt σ p g :=
+  ⟨fun ⟨d', h⟩ => ⟨d'.mv, match_only_instances mt p g d d' h⟩,
+   fun ⟨σ, h⟩ => matchV_complete mt σ p g hg h d⟩
+
+/-- hence every node of the file that is an instance of a metavariable-free expression or
+declaration pattern is a site, wherever it occurs -/
+theorem ground_instance_is_site (c : Change) (d : Data) (id : Nat) (fs : List V) (σ : Subst) (n : V)
+    (hk : c.minus.kind ≠ "stmts") (hg : ground c.mt c.minus.node = true)
+    (hn : n ∈ nodesL fs) (hi : Inst c.mt σ c.minus.node n) :
+    ∃ d', d' ∈ (sitesFields (nodeMatch c d) id 0 fs).map (·.data) := by
+  obtain ⟨d', hm⟩ := matchV_complete c.mt σ c.minus.node n hg hi d
+  refine ⟨d', matching_node_is_site c d d' id fs n hn ?_⟩
+  have hk' : (c.minus.kind == "stmts") = false := by simpa using hk
+  simp [nodeMatch, hk', hm]
 
 /-! ### code that differs from the pattern in a token is not an instance -/
 
